@@ -215,7 +215,8 @@ pub fn check_classification(prog: &Prog, rendered: &Rendered, laid: &Laid, toks:
                     got.map(|g| (g.kind.clone(), g.declaration))
                 );
                 if shadowed {
-                    r.fail("shadowed-global-occurrence", what, json!({ "text": text }));
+                    let got_kind = got.map_or("none".to_string(), |g| format!("{}{}", g.kind, if g.declaration { "+declaration" } else { "" }));
+                    r.fail(format!("shadowed-global-occurrence|want:{}{}|got:{}", want_kind, if want_decl { "+declaration" } else { "" }, got_kind), what, json!({ "text": text }));
                 } else {
                     r.fail(format!("misclassified|{}{}", want_kind, if want_decl { "+declaration" } else { "" }), what, json!({ "text": text }));
                 }
